@@ -22,7 +22,7 @@ pub fn meta(rep: &mut Report) {
     rep.rule = "systems: skeleton families K1..K7 (DESIGN §3.5), sweeps S1 (every slot x every pool element), S3 (full product over the first pool elements), thorough adds S2 (all slot pairs); each system x solver persona x bad-state mode x simplification (orthogonal assignment in quick, full matrix in thorough) x the two boundary bounds L-1 and L around the oracle's shortest counterexample (k=4 when none); the real bmc() runs against the reference solver (decision by exhaustive enumeration) over the real pipe protocol; the verdict must be Fail iff the explicit-state oracle finds a bad state within k steps. distinct_nontrivial = distinct (system, config, bound) sessions in which the engine issued at least two check-sat queries (the transition relation was actually unrolled); states/transitions = reference states / transitions visited by the oracle's breadth-first searches; traces_validated_against_impl = sessions whose verdict was compared with the oracle".into();
     rep.assumptions = vec![
         "reference solver refsmt decides by exhaustive enumeration over the cone of each query (calibrated against real z3/cvc5 at development time)".into(),
-        "init expressions read only earlier states; the yices persona is not paired with systems that contain constant arrays (missing feature, not a verdict)".into(),
+        "init expressions read only earlier states; yices persona x systems that contain constant arrays: an error is tolerated (missing feature: no `as const` in yices, no lowering in patronus), a verdict is judged".into(),
         "systems have at most 3 state variables / 10 state bits; bounds up to 6".into(),
     ];
 }
@@ -131,9 +131,10 @@ pub fn cases(tier: Tier, seed: u64, rep: &Report) -> Vec<Case> {
         };
         for (k, expect_fail) in bounds {
             for (p, ind, simp) in cfgs.iter() {
+                // (yices persona x constant arrays: real yices has no `(as const ..)` and patronus has no lowering, so
+                // an error there is a missing feature; the session still runs and a VERDICT is judged like any other)
                 if no_yices && *p == "yices-smt2" {
-                    rep.add("skipped:yices-const-array", 1);
-                    continue;
+                    rep.add("yices-const-array-sessions(error tolerated, verdict judged)", 1);
                 }
                 out.push(Case { spec: spec.clone(), cfg: McCfg::bmc(p, k, *ind, *simp), expect_fail, l: r.shortest, order });
                 order += 1;
@@ -198,6 +199,7 @@ fn classify(case: &Case, res: &Value) -> Option<(String, String)> {
         "fail" if !case.expect_fail => Some(("wrong-verdict|spurious-failure".into(), format!("bmc reports a failure on {desc}"))),
         "success" | "fail" => None,
         "unknown" => Some(("unknown".into(), format!("bmc answers Unknown on a fault-free run: {desc}"))),
+        "err" | "panic" if case.cfg.persona == "yices-smt2" && spec_uses_const_array(&case.spec) => None,
         "err" => {
             let m = res["msg"].as_str().unwrap_or("");
             Some((format!("err|{}", err_class(m)), format!("bmc returns an error on a fault-free run: {m} — {desc}")))
